@@ -39,10 +39,11 @@ theorem defining_relations (ρ : String → ℝ) (hρ : ∀ s, 0 < ρ s) :
 example : ∃ ρ : String → ℝ, ∀ s, 0 < ρ s := ⟨fun _ => 1, fun _ => one_pos⟩
 example : relations.length ≥ 14 ∧ (baseConstants ratioDefs).length > 50 := by decide +kernel
 
-/-- … and over ℝ, at the source's literals and the true π: `|lhs/rhs − 1|` is within the class -/
+/-- … and over ℝ, at the source's literals and the true π: `|lhs/rhs − 1|` is within the stated tolerance
+    (σ_T: 5·10⁻⁷, eV: 10⁻⁷) -/
 theorem independent_literals_agree_real :
     ∀ r ∈ numRelations,
-      |(closeRel r.lhs).eval sourceEnv / (closeRel r.rhs).eval sourceEnv - 1| ≤ ((r.cls.tol : ℚ) : ℝ) := by
+      |(closeRel r.lhs).eval sourceEnv / (closeRel r.rhs).eval sourceEnv - 1| ≤ ((r.tol : ℚ) : ℝ) := by
   intro r hr
   have h := independent_literals_agree
   unfold numRelationsOk at h
